@@ -79,7 +79,8 @@ class Gen:
 
     def upds(self):
         r = self.r
-        return [r.choice([('assign', 0, 0), ('assign', 0, 0), ('assign', 1, 0, 'd'), ('assign', 1, 0, 'x'), ('assign', 1, 1), ('assign', 0, 1), ('other', 0), ('other', 1)]) for _ in range(r.randrange(0, 4))]
+        return [r.choice([('assign', 0, 0), ('assign', 0, 0), ('assign', 1, 0, 'd'), ('assign', 1, 0, 'x'), ('assign', 1, 1), ('assign', 0, 1), ('other', 0), ('other', 1),
+                          ('assign', 1, 0, 'xh'), ('assign', 1, 0, 'mixed'), ('assign', 1, 1, 'hh')]) for _ in range(r.randrange(0, 4))]
 
     def vars(self):
         r = self.r
@@ -143,9 +144,9 @@ def g_sx(g):
 def u_txt(u, rng):
     if u[0] == 'assign':
         fp, hy = u[1], u[2]
-        if fp and hy: return 'h = 1.5'
+        if fp and hy: return '(i == 0 ? h : h) = 1.5' if len(u) > 3 else rng.choice(['h = 1.5', 'h = d + 1.5'])
         if hy: return 'h = 1'
-        if fp: return rng.choice(['d = 1.5', 'x = 1.5', 'd = e + 1']) if len(u) < 4 else ('d = 1.5' if u[3] == 'd' else 'x = 2.5')
+        if fp: return rng.choice(['d = 1.5', 'x = 1.5', 'd = e + 1']) if len(u) < 4 else {'d': 'd = 1.5', 'x': 'x = 2.5', 'xh': 'x = h + 1.5', 'mixed': rng.choice(['(i == 0 ? h : x) = 2.5', '(b ? y : h) = 1.5'])}[u[3]]
         return rng.choice(['i = 1', 'x = 0', 'j = i + 1'])
     return 'e = fabs(d), i++'.split(', ')[0] if False else ('i++' if not u[1] else 'fv(d)')
 
@@ -156,7 +157,10 @@ def decls(vs, cs, rng, pfx):
         clock, fp = v[1], v[2]
         n = '%sv%d' % (pfx, k)
         if clock:
-            out.append('clock %s%s;' % (n, ' = 1.5' if fp else (' = 1' if len(v) > 3 else '')))
+            shape = rng.choice(['plain', 'plain', 'array', 'record'])
+            if shape == 'array': out.append('clock %s[2]%s;' % (n, ' = {1, 2.5}' if fp else (' = {1, 2}' if len(v) > 3 else '')))
+            elif shape == 'record': out.append('struct { int k; clock c; } %s%s;' % (n, ' = {2, 1.5}' if fp else (' = {2, 1}' if len(v) > 3 else '')))
+            else: out.append('clock %s%s;' % (n, ' = 1.5' if fp else (' = 1' if len(v) > 3 else '')))
         else:
             out.append(('double %s = 2.5;' if fp else 'int %s = 2;') % n)
     for k, c in enumerate(cs):
@@ -178,7 +182,9 @@ def render(d, rng):
         t = d['templs'][k]
         locs = ['<location id="id%d_0"/>' % k]
         for n, g in enumerate(t['invs']):
-            locs.append('<location id="id%d_%d"><label kind="invariant">%s</label></location>' % (k, n + 1, esc(g_txt(g, rng))))
+            # some locations carry an exponential rate next to their invariant (it restricts nothing itself)
+            rate = '<label kind="exponentialrate">%s</label>' % rng.choice(['3', '1:2', 'ci', '2.5']) if rng.random() < 0.4 else ''
+            locs.append('<location id="id%d_%d"><label kind="invariant">%s</label>%s</location>' % (k, n + 1, esc(g_txt(g, rng)), rate))
         eds = []
         for e in t['edges']:
             labs = ''
@@ -233,7 +239,7 @@ def spec_fp_compare(g):
 def spec_bad_rate(g):
     h = g[0]
     if h == 'rate': return (not g[1]) and ((g[2][0] == 'int' and g[2][1] not in (0, 1)) or (g[2][0] == 'dbl' and not g[2][1]))
-    if h == 'and': return spec_bad_rate(g[1]) or spec_bad_rate(g[2])
+    if h in ('and', 'or'): return spec_bad_rate(g[1]) or spec_bad_rate(g[2])
     if h == 'forall': return spec_bad_rate(g[1])
     return False
 
@@ -249,6 +255,30 @@ def spec(d):
             sym = sym or any(u[0] == 'assign' and u[1] and not u[2] for u in e['upds']) or (e['guard'] is not None and spec_fp_compare(e['guard']))
         sto = sto or any(not c[1] for c in t['chans'])
     return dict(symbolic_restricted=sym, stochastic_restricted=sto, priorities=bool(d['prio']) or bool(d.get('chanprio')))
+
+
+def reference_probes(run):
+    """clocks reached through reference parameters: the verdict must follow the clock that is bound, not the declared type of the parameter"""
+    T = ('<?xml version="1.0" encoding="utf-8"?><nta><declaration>clock x; hybrid clock h; int i;</declaration><template><name>T</name><parameter>%s</parameter><location id="id0"><label kind="invariant">%s</label></location>'
+         '<location id="id1"/><init ref="id0"/><transition><source ref="id0"/><target ref="id1"/><label kind="assignment">%s</label></transition></template><system>P = T(%s); system P;</system></nta>')
+    cases = [('hybrid clock &amp;hp', 'true', 'hp = 2.5', 'x', True), ('hybrid clock &amp;hp', "hp' == 2", 'i = 1', 'x', True), ('hybrid clock &amp;hp', 'true', 'hp = 2.5', 'h', False),
+             ('clock &amp;cp', 'true', 'cp = 2.5', 'x', True), ('clock &amp;cp', "cp' == 2", 'i = 1', 'x', True), ('clock &amp;cp', 'true', 'cp = 2', 'x', False)]
+    j = vlib.Job()
+    for k, c in enumerate(cases):
+        j.case('rp%d' % k, fork=True).model('xml', T % c[:4]).dump('errors').dump('supported').end()
+    rr = vlib.run_jobs(j)
+    for k, c in enumerate(cases):
+        r = rr['rp%d' % k]
+        if r['status'] != 'ok' or any(l.startswith('error') for l in r['cmds'][1][2]):
+            run.tie_broken('reference-parameter probe is not accepted', dict(case=c, status=r['status'], errors=[l for l in r['cmds'][1][2] if l.startswith('error')][:2]))
+            continue
+        sym = 'symbolic=1' in ' '.join(r['cmds'][2][2])
+        if c[4] and sym:
+            run.fail('template T(%s) with invariant %r and update %r, instantiated with the clock %s: symbolic analysis is reported as supported' % (c[0].replace('&amp;', '&'), c[1], c[2], c[3]), dict(case=c, xml=T % c[:4]),
+                     shape='verdict:hybrid-ref-parameter' if c[0].startswith('hybrid') else 'verdict:ref-parameter')
+        if not c[4] and not sym:
+            run.tie_broken('reference-parameter probe: a model that restricts nothing is reported as not symbolically analysable', dict(case=c))
+    return len(cases)
 
 
 def check(run):
@@ -337,6 +367,8 @@ def check(run):
             samples.append(dict(doc=doc_sx(d), verdict=real))
     if mism:
         run.tie_broken('FeatureChecker model vs implementation verdicts', mism[:6] + [dict(total=len(mism))])
+    nrp = reference_probes(run)
+    run.cov['reference_parameter_probes'] = nrp
     run.cov.update(evaluations=len(docs), distinct_nontrivial=len(set(doc_sx(d) for d in docs)), traces_validated_against_impl=naccepted,
                    rule='targeted: every (operand fp/clock class)^2 x 6 relational operators x 6 positions (root, either conjunct, nested conjunct, under forall) as guard and as invariant; every rate constant x hybrid x 4 positions; hybrid rate x non-hybrid rate in one invariant (4 shapes); '
                         'every update form x 3 list positions; clock/double initialisers and channels globally, locally and in a never-instantiated template; then seeded random documents with shuffled declaration and template order; '
